@@ -480,7 +480,7 @@ var c14Menus = map[string][]c14Defect{
 	"RouterInfo":       {{"none", false}, {"no-addresses", false}, {"published-zero", false}},
 	"LeaseSet":         {{"none", false}, {"17-leases", true}, {"signing-key-of-other-type", false}},
 	"KeysAndCert":      {{"none", false}, {"nil-crypto-key", false}, {"nil-signing-key", false}, {"padding-one-byte-short", true}, {"crypto-key-of-other-type", true}, {"signing-key-of-other-type", true}},
-	"RouterAddress":    {{"none", false}, {"empty-style", true}, {"style-256-bytes", false}, {"option-value-256-bytes", false},
+	"RouterAddress": {{"none", false}, {"empty-style", true}, {"style-256-bytes", false}, {"option-value-256-bytes", false},
 		{"style-200-runes-400-bytes", false}, {"option-value-100-runes-300-bytes", false}, {"option-key-200-runes-400-bytes", false}, {"style-127-runes-254-bytes", false},
 		{"options-body-65535", false}, {"options-body-65536", false}, {"options-body-65537", false}, {"options-body-65540", false}, {"options-body-65700", false}, {"options-body-66000", false}},
 }
